@@ -92,6 +92,34 @@ func (p c12) Gen(t *rapid.T, env *Env) (*Case, []*Out) {
 			break
 		}
 	}
+	// a JSON object with two keys that differ only in case ("description" and "Description"): encoding/json matches field
+	// names case-insensitively, so both feed one field and the LAST one wins - key order becomes meaningful (known finding
+	// KF-C12-1; the perturbation label says so)
+	casedup := false
+	if afs := argFiles(w, args); !collide && !stdin && len(afs) > 0 && rapid.IntRange(0, 11).Draw(t, "casedup") == 0 {
+		for _, f := range afs {
+			if f.YAML || !f.RootObj {
+				continue
+			}
+			nf := *f
+			d := append(Obj{}, f.Doc...)
+			if _, ok := d.Get("description"); !ok {
+				d = append(d, KV{"description", "lower-case spelling of the keyword"})
+			}
+			d = append(d, KV{"Description", "UPPER-CASE SPELLING OF THE KEYWORD"})
+			nf.Doc = d
+			cp := *w
+			cp.Files = append([]*SFile{}, w.Files...)
+			for i := range cp.Files {
+				if cp.Files[i] == f {
+					cp.Files[i] = &nf
+				}
+			}
+			w = &cp
+			casedup = true
+			break
+		}
+	}
 	env.Stats.NoteFeat(w.Feat)
 	var respell func(t *rapid.T) []string
 	if afs := argFiles(w, args); len(afs) == len(args) && len(afs) > 0 {
@@ -191,7 +219,11 @@ func (p c12) Gen(t *rapid.T, env *Env) (*Case, []*Out) {
 					return
 				}
 				ko = &KeyOrder{Choices: rapid.SliceOfN(rapid.IntRange(0, 7), 1, 8).Draw(t, "keyperm")}
-				kinds = append(kinds, "keyperm")
+				if casedup {
+					kinds = append(kinds, "keyperm:case-variant-keys")
+				} else {
+					kinds = append(kinds, "keyperm")
+				}
 			case 8:
 				sp.Clock = int64(rapid.IntRange(1, 2000000000).Draw(t, "clock"))
 				sp.Pid = rapid.IntRange(2, 99999).Draw(t, "pid")
@@ -242,7 +274,7 @@ func (p c12) Gen(t *rapid.T, env *Env) (*Case, []*Out) {
 				sp.MapDefault = "reverse"
 				sp.Chunks = []int{1}
 				prefix = prefixChoices[0]
-				if collide {
+				if collide || casedup {
 					kinds = append(kinds, "map:reverse", "chunks", "reloc")
 					return
 				}
@@ -251,8 +283,12 @@ func (p c12) Gen(t *rapid.T, env *Env) (*Case, []*Out) {
 			}
 		}
 		apply(mode)
-		if env.Thorough() && mode != 9 && rapid.IntRange(0, 3).Draw(t, "second") == 0 {
-			apply(rapid.IntRange(1, 8).Draw(t, "mode2"))
+		if env.Thorough() && mode != 9 && !(casedup && mode == 7) && rapid.IntRange(0, 3).Draw(t, "second") == 0 {
+			m2 := rapid.IntRange(1, 8).Draw(t, "mode2")
+			if casedup && m2 == 7 {
+				m2 = 1 // the known finding keeps a label of its own
+			}
+			apply(m2)
 		}
 		base := mkSpec(prefix, ko, vargs)
 		base.MapDefault, base.MapOrders, base.Chunks = sp.MapDefault, sp.MapOrders, sp.Chunks
